@@ -102,6 +102,7 @@ impl<Req, Res, E> Chaos<Req, Res, E> {
                 ==> final(tr).draws == 0 && final(tr).slept == 0 && final(tr).calls == 1,   // #both_rates_zero_is_transparent_and_consumes_no_randomness [C19,C20]
             (old(self).config.error_injector.custom && is_one(old(self).config.error_injector.rate)) ==> final(tr).calls == 0,   // #error_rate_one_fails_every_call [C19]
             final(tr).draws <= 3,   // #draws_a_bounded_number_of_values_in_a_fixed_order [C19]
+            final(tr).draws_at_future == 0 || final(tr).draws_at_future == final(tr).draws,   // #all_draws_of_a_request_are_taken_together_on_one_side_of_the_futures_creation [C19]
             final(self).rng == old(self).rng && final(self).config == old(self).config,   // #frame
     //@body Chaos::call@Service
 }
